@@ -394,18 +394,23 @@ def check_registries(ctx, m):
     # search() must use the same table for its walk filter and fall back to "all" on None
     s = ctx.repo.funcs('match', 'search')[0]
     # structural: <W> = _LEAF_ASTS_FUNCS.get(<cls>, <default>)(pat); an `if <W> is None ...:` arm rebinds <W> = True
-    wname = None
-    for x in walk_no_nested(s.node):
-        if isinstance(x, ast.Assign) and isinstance(x.targets[0], ast.Name) and isinstance(x.value, ast.Call) and isinstance(x.value.func, ast.Call) and \
-                isinstance(x.value.func.func, ast.Attribute) and x.value.func.func.attr == 'get' and norm(x.value.func.func.value) == '_LEAF_ASTS_FUNCS':
-            wname = x.targets[0].id
-    fallback = False
-    if wname:
-        for x in walk_no_nested(s.node):
-            if isinstance(x, ast.If) and any(isinstance(c, ast.Compare) and norm(c.left) == wname and isinstance(c.ops[0], ast.Is) and
+    from ..struct import called_helpers
+    wname, fallback = None, False
+    for g in called_helpers(ctx.repo, s, 1):         # search() itself or the worker that computes the filter for it
+        wn = None
+        for x in walk_no_nested(g.node):
+            if isinstance(x, ast.Assign) and isinstance(x.targets[0], ast.Name) and isinstance(x.value, ast.Call) and isinstance(x.value.func, ast.Call) and \
+                    isinstance(x.value.func.func, ast.Attribute) and x.value.func.func.attr == 'get' and norm(x.value.func.func.value) == '_LEAF_ASTS_FUNCS':
+                wn = x.targets[0].id
+        if not wn:
+            continue
+        wname = wn
+        for x in walk_no_nested(g.node):
+            if isinstance(x, ast.If) and any(isinstance(c, ast.Compare) and norm(c.left) == wn and isinstance(c.ops[0], ast.Is) and
                                               isinstance(c.comparators[0], ast.Constant) and c.comparators[0].value is None for c in ast.walk(x.test)):
-                fallback = any(isinstance(b, ast.Assign) and norm(b.targets[0]) == wname and isinstance(b.value, ast.Constant) and b.value.value is True
-                               for b in x.body)
+                fallback = fallback or any(
+                    (isinstance(b, ast.Assign) and norm(b.targets[0]) == wn and isinstance(b.value, ast.Constant) and b.value.value is True) or
+                    (g is not s and isinstance(b, ast.Return) and isinstance(b.value, ast.Constant) and b.value.value is True) for b in x.body)
     ctx.check('R17.4', bool(wname) and fallback, 'match', 'search', 'walk filter = _LEAF_ASTS_FUNCS.get(...)(pat); None -> True',
               'search() must derive its walk filter from _LEAF_ASTS_FUNCS and treat an indeterminate (None) filter as "all nodes"', s.lineno)
 
